@@ -241,6 +241,8 @@ def train_off_policy(
         pop_fps = []
         for agent_idx, agent in enumerate(pop):  # Loop through population
             state, info = env.reset()  # Reset environment at start of episode
+            if swap_channels:
+                state = obs_channels_to_first(state)
             scores = np.zeros(num_envs)
             completed_episode_scores, losses = [], []
             steps = 0
@@ -253,9 +255,6 @@ def train_off_policy(
 
             start_time = time.time()
             for idx_step in range(evo_steps // num_envs):
-                if swap_channels:
-                    state = obs_channels_to_first(state)
-
                 # Get next action from agent
                 if isinstance(agent, DQN):
                     action_mask = info.get("action_mask", None)
